@@ -25,6 +25,38 @@ Theorem route_cached_covering : forall (hash : str -> N) cache c p g s,
 Proof. exact route_cached_covering_proof. Qed.
 Print Assumptions route_cached_covering.
 
+(* Existence. A row as the line-protocol parser delivers it (tag keys strictly ascending) that carries every shard-key tag
+   (shard key sorted, as CreateMeasurement stores it), with a timestamp up to MaxNanoTime and a positive group duration,
+   HAS a route once CreateShardGroup has run: a writable group containing the timestamp exists (the old one or the new
+   [trunc(t,d), +d)), and in it a shard is chosen - hash: non-empty index list with indexes in range; range: key ranges
+   that start and end open and share their bounds. Together with route_unique_covering: exactly one shard. *)
+Theorem route_total : forall (hash : str -> N) c p gid shards alive,
+  0 < c_dur c -> p_time p <= max_nano ->
+  keys_sorted (map fst (p_tags p)) -> keys_sorted (c_sk c) -> (forall k, In k (c_sk c) -> In k (map fst (p_tags p))) ->
+  (forall g, In g (c_groups (ensure_group c (p_time p) gid shards alive)) -> wf_route c g) ->
+  exists g s, route hash (ensure_group c (p_time p) gid shards alive) p = Some (g, s).
+Proof. exact route_total_proof. Qed.
+Print Assumptions route_total.
+
+(* sorted rows satisfy the hypothesis of the pruning theorems and pass the duplicate check of the write path *)
+Theorem sorted_row_is_wf : forall p, keys_sorted (map fst (p_tags p)) -> wf_point p /\ has_adj_dup (p_tags p) = false.
+Proof. intros p H. split; [exact (sorted_nodup _ H)|exact (sorted_no_adj_dup _ H)]. Qed.
+
+(* Write side and read side build the same key, for every shard-key definition: from any tag set the row satisfies -
+   duplicate keys allowed, the sorted merge takes the first value per key - the read side selects a prefix of the pairs
+   the write side selected, and all of them when every shard-key tag is constrained. A tag set with two different
+   values for one key is satisfied by no row. *)
+Theorem key_construction_agrees : forall sk tags ts,
+  NoDup (map fst tags) -> snd (sel_keys sk tags) = true ->
+  (forall k v, In (k, v) ts -> tag_val tags k = v) ->
+  exists m, fst (sel_keys sk (sort_tags ts)) = firstn m (fst (sel_keys sk tags)) /\
+            (snd (sel_keys sk (sort_tags ts)) = true -> fst (sel_keys sk (sort_tags ts)) = fst (sel_keys sk tags)).
+Proof. exact sel_keys_agree_proof. Qed.
+Theorem contradictory_alternative_matches_no_row : forall tags ts k v1 v2,
+  In (k, v1) ts -> In (k, v2) ts -> v1 <> v2 -> ~ (forall k' v, In (k', v) ts -> tag_val tags k' = v).
+Proof. exact contradictory_alternative_unsat. Qed.
+Print Assumptions key_construction_agrees.
+
 (* The group created for a timestamp: [trunc(t,d), +d) with Go's year-1 anchored Truncate; it contains t, its start is
    a multiple of d counted from year 1, and every instant of the span is mapped to the same span (created groups of one
    duration tile the time line: two of them are equal or disjoint). *)
@@ -163,3 +195,12 @@ Example ex_week_anchor :
   span_of 1700000000000000000 604800000000000 = (1699833600000000000, 1700438400000000000) /\
   1700000000000000000 - 1700000000000000000 mod 604800000000000 = 1699488000000000000.
 Proof. vm_compute. split; reflexivity. Qed.
+
+(* the hypotheses of route_total hold for the example catalogue and row, and the route is the observed one *)
+Example ex_route_total_hyps :
+  0 < c_dur ex_cfg /\ keys_sorted (map fst (p_tags (ex_point 100 true))) /\ keys_sorted (c_sk ex_cfg) /\
+  (forall g, In g (c_groups (ensure_group ex_cfg (p_time (ex_point 100 true)) 2%N (mk_shards 8) (seq 0 8))) -> wf_route ex_cfg g).
+Proof.
+  split; [reflexivity|]. split; [repeat constructor|]. split; [repeat constructor|].
+  intros g [<-|[]]. unfold wf_route. simpl. split; [discriminate|]. repeat constructor.
+Qed.
